@@ -163,7 +163,28 @@ def run(out):
             desc = {"tool": c["tool"], "variant": vname, "block": c["bb"] * 8, "file_length": c["len"], "key_len": len(c["key"]), "key": c["khex"],
                     "counter_or_tweak": c["thex"], "decrypt": c["dec"]}
             try:
-                p = subprocess.run([tools[c["tool"]]] + args + [inp, outp], stdout=subprocess.PIPE, stderr=subprocess.PIPE, env=env, timeout=120)
+                src = inp
+                if c["len"] and c["len"] < 200000 and rng.random() < 0.15:
+                    # the input arrives through a named pipe in irregular pieces (short reads in the middle of the stream)
+                    import threading, time as _t
+                    src = pfx + ".fifo"
+                    os.mkfifo(src)
+                    cuts = sorted(rng.sample(range(1, c["len"]), min(c["len"] - 1, rng.randrange(1, 7)))) if c["len"] > 1 else []
+
+                    def feed(path=src, cuts=cuts):
+                        try:
+                            fd = os.open(path, os.O_WRONLY)
+                            prev = 0
+                            for q in cuts + [len(data)]:
+                                os.write(fd, data[prev:q]); prev = q
+                                _t.sleep(0.01)
+                            os.close(fd)
+                        except OSError:
+                            pass
+                    threading.Thread(target=feed, daemon=True).start()
+                    desc["input"] = "named pipe written in %d pieces" % (len(cuts) + 1)
+                    res.append(("note:fifo", "", desc))
+                p = subprocess.run([tools[c["tool"]]] + args + [src, outp], stdout=subprocess.PIPE, stderr=subprocess.PIPE, env=env, timeout=120)
                 mode = {"skinny-ctr": "ctr", "skinny-tweak": "tweak", "skinny-ecb": "ecb"}[c["tool"]]
                 oargs = [mode, str(c["bb"]), c["key"].hex(), c["tw"].hex() if c["tw"] is not None else "-", "dec" if c["dec"] else "enc", inp]
                 p1 = subprocess.run([oracle] + oargs + [exp, "lib"], stdout=subprocess.PIPE, stderr=subprocess.PIPE, env=env, timeout=120)
@@ -201,7 +222,7 @@ def run(out):
             except subprocess.TimeoutExpired:
                 res.append(("inconclusive", "tool timed out", desc))
             finally:
-                for f in (inp, outp, exp, expm, back):
+                for f in (inp, outp, exp, expm, back, pfx + ".fifo"):
                     try: os.unlink(f)
                     except OSError: pass
             return res
@@ -222,6 +243,8 @@ def run(out):
             for key, msg, desc in res:
                 if key == "harness":
                     out.harness_errors.append({"detail": msg, "case": desc})
+                elif key == "note:fifo":
+                    out.counters["inputs_fed_through_a_named_pipe_in_pieces"] = out.counters.get("inputs_fed_through_a_named_pipe_in_pieces", 0) + 1
                 elif key == "note:dup":
                     out.counters["command_lines_with_a_repeated_option"] = out.counters.get("command_lines_with_a_repeated_option", 0) + 1
                 elif key.startswith("note:"):
